@@ -86,16 +86,28 @@ class Ctx:
         self.coverage["trusted_base"] = list(self.registry.get("trusted_base", [])) + entry.get("trusted_extra", [])
         self.notes["theorems"] = theorems
         self.notes["partial"] = entry.get("partial", [])
-        # translators: regenerate the generated Lean tables from the live sources / findings
+        # checks of several properties may run at the same time: regenerating the tables and building are
+        # serialised (an exclusive lock on a file next to the lakefile), so that no build sees a half-written
+        # generated file
+        import fcntl
+        lock = open(os.path.join(VERIF, "lean", ".verif_build.lock"), "w")
+        fcntl.flock(lock, fcntl.LOCK_EX)
         try:
-            from . import gen_tables
-            self.notes["generated_tables_changed"] = gen_tables.regenerate_all()
-        except Exception as e:  # noqa
-            self.broken.append({"kind": "table generation", "detail": repr(e)})
-        # build only what this property depends on (plus the driver), so that a change to some
-        # other part of the repository cannot trip this property's obligations
-        modules = entry.get("modules", [])
-        ok, out = core.lake_build(tuple(["driver"] + modules))
+            # translators: regenerate the generated Lean tables from the live sources / findings
+            try:
+                from . import gen_tables
+                self.notes["generated_tables_changed"] = gen_tables.regenerate_all()
+            except Exception as e:  # noqa
+                self.broken.append({"kind": "table generation", "detail": repr(e)})
+            # build only what this property depends on (plus the model driver, which imports no generated
+            # code), so that a change to some other part of the repository cannot trip this property's
+            # obligations; `exes`: further executables this property's check runs (the driver of the
+            # translated tokenizer/parser for C03/C10)
+            modules = entry.get("modules", [])
+            ok, out = core.lake_build(tuple(["driver"] + entry.get("exes", []) + modules))
+        finally:
+            fcntl.flock(lock, fcntl.LOCK_UN)
+            lock.close()
         if not ok:
             self.broken.append({"kind": "lake build", "detail": out[-3000:]})
             # the driver may still exist from the previous build of unchanged model files
